@@ -512,7 +512,10 @@ def _run_batch(case, drv):
     # alone in a FRESH PROCESS, where nothing can have been left behind by earlier computations of this process
     sampled = int(canon_hash(case['requests']), 16) % 7 == 0           # ~14 % of the ordinary and multiband batches as well
     pick = reqs[1] if case.get('sim') else reqs[-1]
-    if (case.get('sim') or sampled) and len(reqs) >= 2 and not full[pick['id']][2]:
+    forced = next((r for r in reqs if r['id'] == case.get('fresh_pick')), None)      # low-power-first / grid twins: the later twin
+    if forced is not None:
+        pick = forced
+    if (case.get('sim') or sampled or forced is not None) and len(reqs) >= 2 and not full[pick['id']][2]:
         rid = pick['id']
         fresh, err = _fresh_process_alone(case, rid)
         res.stats['fresh_process_alone_runs'] += 1
